@@ -89,7 +89,7 @@ func runCheck(id, tier string) int {
 	r.Count("function_bodies_in_loaded_packages", p.NFuncs)
 	pc.Run(p, r)
 	if tier == "thorough" {
-		runMutants(pc, r)
+		runMutants(pc, p, r)
 	}
 	return r.Finish()
 }
